@@ -70,6 +70,11 @@ def scenarios(ctx):
     for i in range(600 if ctx.quick else 15000):
         quartet = rng.random() < 0.4
         ped = [["s1", "s2", "s3"]] + ([["s1", "s2", "s4"]] if quartet else [])
+        if rng.random() < 0.5:
+            # roles independent of names and of the VCF column order (children may sort before their parents), PED lines in any order
+            nm = rng.sample(["s1", "s2", "s3", "s4"][:4 if quartet else 3], 4 if quartet else 3)
+            ped = [[nm[0], nm[1], nm[2]]] + ([[nm[0], nm[1], nm[3]]] if quartet else [])
+            rng.shuffle(ped)
         w = PW.rand_world(rng, nsamples=4 if quartet else 3, nchroms=rng.choice([1, 1, 2]), ped=ped, max_sites=rng.choice([4, 8]),
                           het_prob=rng.choice([0.4, 0.7, 0.9]), depth=(1, 3), read_none_prob=rng.choice([0, 0.3, 1.0]))
         vg = {s: [[_gt_of(w["truth"][s][ci][i]) for i in range(len(ch["sites"]))] for ci, ch in enumerate(w["chroms"])]
